@@ -45,7 +45,7 @@ def _threshold_obligations(B, s, f, n, tv, npre, warned):
         B.ge(f"m={m}: one mode fewer would not reach the fraction", f, cum[m - 2 : m - 1])
 
 
-def h_threshold_decomposer(B, n=5, p=3, irr=1.0):
+def h_threshold_decomposer(B, n=5, p=3, irr=1.0, f_fixed=None):
     import warnings as W
 
     from xeofs.linalg.decomposer import Decomposer
@@ -53,7 +53,7 @@ def h_threshold_decomposer(B, n=5, p=3, irr=1.0):
     da = _centred(B, n, p)
     tv = da.var("sample", ddof=1).sum("feature").data
     B.assume_gt(tv, 0.0, "total variance > 0")
-    f = B.sym_float("f", 0.05, 1.0)
+    f = B.sym_float("f", 0.05, 1.0) if f_fixed is None else f_fixed  # the float 1.0 is a fraction (100 %), not a count
     d = Decomposer(n_modes=f, init_rank_reduction=irr, solver="full")
     B.covers("Decomposer.fit (variance threshold)")
     with W.catch_warnings(record=True) as rec:
@@ -70,13 +70,13 @@ def h_threshold_decomposer(B, n=5, p=3, irr=1.0):
             B.ge("warning only when the fraction is not reached", f, cum_last)
 
 
-def h_threshold_svd(B, n=5, p=3):
+def h_threshold_svd(B, n=5, p=3, f_fixed=None):
     from xeofs.linalg._numpy._svd import _SVD
 
     da = _centred(B, n, p)
     tv = da.var("sample", ddof=1).sum("feature").data
     B.assume_gt(tv, 0.0, "total variance > 0")
-    f = B.sym_float("f", 0.05, 1.0)
+    f = B.sym_float("f", 0.05, 1.0) if f_fixed is None else f_fixed
     svd = _SVD(n_modes=f, init_rank_reduction=1.0, solver="full")
     B.covers("_SVD.fit_transform (variance threshold)")
     U, s, V = svd.fit_transform(da.data)
@@ -230,6 +230,9 @@ def configs(tier):
         add("h_threshold_decomposer", f"threshold|Decomposer|n5p{p}", n=5, p=p)
         add("h_threshold_svd", f"threshold|_SVD|n5p{p}", n=5, p=p)
     add("h_threshold_decomposer", "threshold|Decomposer|n5p4|init_rank_reduction=0.5", n=5, p=4, irr=0.5)
+    add("h_threshold_decomposer", "threshold|Decomposer|n5p3|fraction exactly 1.0", n=5, p=3, f_fixed=1.0)
+    add("h_threshold_svd", "threshold|_SVD|n5p3|fraction exactly 1.0", n=5, p=3, f_fixed=1.0)
+    add("h_threshold_svd", "threshold|_SVD|n5p3|fraction numpy.float64(0.5)", n=5, p=3, f_fixed=np.float64(0.5))
     for solver in ("auto", "full", "randomized"):
         add("h_policy", f"policy|{solver}", solver=solver, options={"max_forks": 60})
     for t in ("EOF", "ComplexEOF", "ExtendedEOF", "POP", "CPCCA", "MCA", "CPCCA+PCA"):
